@@ -418,8 +418,12 @@ def classify_rejected(p1, msg, s_decls):
                         rec(x)
             rec(getattr(e, "ast", None))
         walk_exprs(s_decls.decls, f)
-        if quoted and (line.count("'") % 2 == 1 or "unterminated" in msg or any(("'" + q[:q.index("'") + 1]) in line for q in quoted)):
-            return "apostrophe-in-string-not-doubled"
+        for q in quoted:
+            # the literal as the printer would emit it WITHOUT doubling: 'it's
+            head = "'" + q[:q.index("'") + 1]
+            pos = line.find(head)
+            if pos >= 0 and line[pos + len(head):pos + len(head) + 1] != "'":
+                return "apostrophe-in-string-not-doubled"
     m2 = re.search(r"Reference to undefined type ([a-z0-9_]+)", msg)
     if m2 and s_decls is not None:
         for (scope, kind, name) in s_decls.decls:
